@@ -13,6 +13,10 @@ mod eventloop;
 mod framed;
 pub mod mqttbytes;
 mod state;
+#[cfg(rumqtt_verif)]
+pub(crate) mod verif_exports {
+    pub use super::framed::Network;
+}
 
 use crate::Outgoing;
 use crate::{NetworkOptions, Transport};
